@@ -230,6 +230,16 @@ def extract_matrix(scratch, say):
     td = os.path.join(scratch, "extract_target")
     env = dict(os.environ, CARGO_NET_OFFLINE="true")
     here = os.path.join(os.path.dirname(os.path.abspath(__file__)), "extract")
+    repo = os.environ.get("VERIF_REPO", "/repo")
+    if repo != "/repo":   # development aid: check a scratch worktree instead of /repo
+        import shutil
+        dst = os.path.join(scratch, "extract_crate")
+        if not os.path.exists(dst):
+            shutil.copytree(here, dst, ignore=shutil.ignore_patterns("target"))
+            pth = os.path.join(dst, "Cargo.toml")
+            txt = open(pth).read().replace('"/repo/', '"' + repo.rstrip("/") + "/")
+            open(pth, "w").write(txt)
+        here = dst
     r = subprocess.run(["cargo", "run", "-q", "--offline", "--manifest-path", os.path.join(here, "Cargo.toml"),
                         "--target-dir", td, "--", "xorshift-basis"], capture_output=True, text=True, env=env)
     if r.returncode != 0:
